@@ -1,4 +1,6 @@
 use rand::Rng;
+#[cfg(ohsl_verif)] use crate::verif_shim::std_shim as std;
+#[cfg(ohsl_verif)] use crate::verif_shim::num_cpus;
 pub use crate::vector::Vector;
 
 impl Vector<f64> {
